@@ -795,3 +795,28 @@ def cli_id_not_narrowed(ctx, rid, fn_names):
         if bad:
             run.finding(Finding(rid, fid, "the id typed on the command line is parsed as u64 and cut down with `as u32`: an id that does not exist (4294967296 + n) silently names entry n", site=c.site_of(f, bad[0])))
     return n
+
+
+def test_rng_roots(ctx, rid, sinks, what):
+    """Every value that reaches the use_test_rng parameter of the given sinks is the literal false (or is switched
+    by doctest_mode, which the production constructors set to false): the test RNG is a fixed sequence."""
+    from ..flags import FlagRoots
+    run = ctx.run
+    db = ctx.db
+    fr = FlagRoots(ctx)
+    roots = set()
+    for fid, pname in sinks:
+        f = db.fns.get(fid)
+        if not f:
+            run.error("%s: sink %s not found" % (rid, fid))
+            continue
+        for n, p, a in f.vars:
+            if n == pname and a > 0 and not p[1]:
+                for r in fr.roots_of_operand(f, {"c": [p[0], []]}):
+                    roots.add((fid.split("::")[-1],) + r)
+    for sink, kind, val, fid, site in sorted(roots):
+        held = kind == "const" and val in ("0", "1-under-false-flag")
+        run.instance(rid, {"sink": sink, "root": "%s %s" % (kind, pp.short(str(val))), "in": pp.short(fid)}, held=held)
+        if not held:
+            run.finding(Finding(rid, fid, "use_test_rng of %s has root %s %s: %s" % (sink, kind, pp.short(str(val)), what), site=site))
+    return len(roots)
